@@ -140,7 +140,36 @@ def engine_fire_rule(ctx):
             ctx.check(bool(tested) and all(t_ in (fired, fired_h) for t_ in tested) and (of_element(fired) or of_element(fired_h)),
                       "fire-the-tested-hook", "provenance", fph.loc(i), "the hook fired is the one tested", "fires another hook than the one tested")
 
+def deferred_victim_is_the_selected_candidate(ctx):
+    """Shared by C01 and C07: what is parked while a pre-kill hook runs is the candidate that was selected, logged and hooked - the saved
+    `target` is the candidate's own cgroup (kc.cgroupCtx), not its kill root (the configured cgroup the candidate was found under) or
+    anything else.  On resume exactly that target is re-resolved and killed."""
+    P = ctx.prog
+    rts = ctx.fn1("Oomd::BaseKillPlugin::resumeTryingToKillSomething")
+    n = 0
+    for g in [rts] + P.lambdas_in(rts):
+        for i, nd in enumerate(g.nodes):
+            if nd["k"] not in ("initlist", "construct") or "SerializedKillCandidate" not in (nd.get("type") or ""):
+                continue
+            kids = nd.get("kids", nd.get("args", []))
+            if not kids:
+                continue
+            cls = P.classes.get("Oomd::BaseKillPlugin::SerializedKillCandidate", {})
+            names = [x["name"] for x in cls.get("fields", [])]
+            if "target" not in names or names.index("target") >= len(kids):
+                ctx.broken("deferred-victim-is-the-selected-candidate", "anchor", g.loc(i), "SerializedKillCandidate has no field 'target' at a known position")
+                continue
+            n += 1
+            t = g.text(kids[names.index("target")])
+            ctx.check(re.search(r"\.cgroupCtx\b", t) is not None and ".killRoot" not in t, "deferred-victim-is-the-selected-candidate", "value-shape (aggregate initialiser by field position)", g.loc(i),
+                      "the saved target is the candidate's own cgroup", "the deferred victim is saved as '%s' instead of the candidate's own cgroup (kc.cgroupCtx): after the "
+                      "hook the whole kill root - the configured cgroup the candidate was found under, siblings included - is killed" % t[:80])
+    ctx.counters["serialized_candidate_sites"] = n
+    ctx.floor("serialized_candidate_sites", 1, "construction of SerializedKillCandidate")
+
+
 def run(ctx):
+    deferred_victim_is_the_selected_candidate(ctx)
     from .C15 import cached_slot_types_agree
     cached_slot_types_agree(ctx)
     from .C13 import merge_writes_only_overridable_parts
